@@ -429,11 +429,13 @@ def check_cursor(ctx, f, node, name, ix, post, an=None):
 # --------------------------------------------------------------------------
 # abstract input regions: "for every input in region R the function does not return TRUE"
 
-def returns_reachable(ctx, f, region, want_true=True):
+def returns_reachable(ctx, f, region, want_true=True, persistent=False):
     """Abstractly execute f from the entry state `region` ({access path: interval} on fields
     reached through its pointer parameters).  Returns (list of reachable return nodes whose
     value may be non-zero (want_true) / zero, paths of the region that matched no expression)."""
-    an = absint.Analysis(ctx, f, {}, extra_init=region).run()
+    an = absint.Analysis(ctx, f, {}, extra_init=region)
+    an.persistent = persistent      # region facts about memory the function only reads (a const buffer) survive calls
+    an = an.run()
     hits = []
     for bid, i in flow.all_events(f):
         e = f.exprs[i]
